@@ -35,7 +35,7 @@ def success_blocks(fn):
     return out
 
 
-def param_refusal(ctx, fx, fn, params, rule, summaries=None, delegates=None, depth=0):
+def param_refusal(ctx, fx, fn, params, rule, summaries=None, delegates=None, depth=0, all_success=False):
     """returns number of (fn, param) obligations"""
     n = 0
     sm = summaries or taint.Summaries(fx)
@@ -59,6 +59,8 @@ def param_refusal(ctx, fx, fn, params, rule, summaries=None, delegates=None, dep
                     and any(op_local(a) in fw for a in c["a"]):
                 effects.append((b, c))
         targets = dep_succ | {b for b, _ in effects}
+        if all_success:
+            targets |= succ      # the refusal must protect every successful return, data-dependent or not
         if not targets:
             # pure forwarding: the parameter is handed to a crate-local callee (checked separately)
             fwd = [c for b, c in fn.calls() if c["loc"] and any(op_local(a) in fw for a in c["a"])]
